@@ -204,3 +204,48 @@ Example ex_history_reliability_learning :
   map is_permit (run_history false st
     [OVote first_permits; OUpdateAll Permit; OVote first_permits]) = [false; true].
 Proof. vm_compute. reflexivity. Qed.
+
+(* ---------------------------------------------------------------------- *)
+(* run_vote calls that do not return                                         *)
+Definition block_all : nat -> behaviour := fun _ => Acted ABlock None.
+
+(* THRESHOLD, three voters (quota 2), on_quorum_reached raises: the first vote
+   (all permit) is reached, handed to the callback, the caller gets the
+   callback's exception; the second vote (all block) is BLOCK with counts
+   3 / 0 permits / 3 blocks, and on_quorum_failed is not configured.  (Ballots
+   of the first call carried into the second would give 6 / 3 / 3 and PERMIT.) *)
+Example ex_history_callback_raises :
+  let st := init_state (mkConfig ThresholdCount None 1) true [(1, 1); (1, 1); (1, 1)] in
+  let ops := [OSetCallbacks CbRaises CbNone; OVote permit_all; OVote block_all] in
+  map (fun t => (ending_of (fst (fst t)) (snd t), fired (fst (fst t)) (snd t), verdict (snd t)))
+      (trace false st ops)
+  = [(CallbackRaised, Some true, Some (true, Permit)); (Returned, None, Some (false, Block))] /\
+  obs_history false st ops =
+  [[2; 1; 0; 3; 3; 0; 0; 3]; [0; 1073741824; 1; 1]; [0; 1073741824; 1; 1]; [0; 1073741824; 1; 1]; [-4; 1];
+   [1; 0; 1; 3; 0; 3; 0; 3]; [1; 1073741824; 1; 1]; [1; 1073741824; 1; 1]; [1; 1073741824; 1; 1]; [-4; 0];
+   [-2; 3]; [0; 2; 0; 1073741824; 1073741824]; [1; 2; 0; 1073741824; 1073741824];
+   [2; 2; 0; 1073741824; 1073741824]; [-5; 6; 1; 1]]%Z.
+Proof. vm_compute. split; reflexivity. Qed.
+
+(* MAJORITY, three voters: a run_vote is abandoned when the third voter's agent
+   raises a BaseException after two permits were collected; the next vote (one
+   permit, two blocks) is BLOCK - the two collected permits are gone; only
+   votes_cast of the first two members remembers the abandoned call. *)
+Example ex_history_interrupted :
+  let st := init_state (cfg Majority) true [(1, 1); (1, 1); (1, 1)] in
+  let ops := [OInterrupted permit_all 2; OVote first_permits] in
+  map (fun t => verdict (snd t)) (trace false st ops) = [Some (false, Block)] /\
+  map p_cast (s_colony (final_state false st ops)) = [2; 2; 1]%Z /\
+  hd [] (obs_history false st ops) = [-3]%Z.
+Proof. vm_compute. repeat split; reflexivity. Qed.
+
+(* c06_history_callbacks_never_influence on a history where callbacks fire,
+   raise and are reassigned *)
+Example ex_callbacks_never_influence :
+  let st := init_state (cfg Weighted) true [(1, 1); (2, 1)] in
+  let ops := [OSetCallbacks CbRaises CbRaises; OVote first_permits; OUpdateAll Permit;
+              OSetCallbacks CbReturns CbNone; OVote first_permits; OInterrupted permit_all 1;
+              OVote block_all] in
+  map is_permit (run_history false st ops) = [false; true; false] /\
+  filter not_callback_op ops <> ops.
+Proof. split; [vm_compute; reflexivity | discriminate]. Qed.
